@@ -5,7 +5,7 @@ after the last write, 1 before open() replaced by unique after the last write}: 
 on disk is compared with an independent recomputation from the container walk of the Python decoder (fileSize = size
 on disk; uncompressedFileSize = 144 + sum(32 + uncompressed size); objectCount = objects written without type 115;
 restorePointsOffset = offset of the trailing container when enabled; caller fields verbatim, the computed fields
-overwritten even when preset with garbage).  Every written file and every one of the 170 reference logs is read
+overwritten even when preset with garbage).  A sub-grid repeats the sessions on File objects that saw 1 or 3 failed open attempts first.  Every written file and every one of the 170 reference logs is read
 completely through File and the reader's currentObjectCount / currentUncompressedFileSize must equal the header."""
 import glob
 import json
@@ -106,6 +106,9 @@ def main(argv):
         base = ["readback=1"]
         jobs += F.jobs(exe, base + ["set=alpha", "maxlen=1"] + F.cfg(F.ALL_LEVELS if not quick else [0, 1, 6, 9], F.ALL_CONTS, (0, 1), (0, 1, 2, 3, 4, 5, 6, 7)), 32)
         jobs += F.jobs(exe, base + ["set=alpha", "maxlen=2"] + F.cfg([0, 6], [1, 33, 48, 100, 0x20000] if quick else F.ALL_CONTS, (0, 1), (0, 4, 7)), 32)
+        # the same File object after failed open attempts (missing file, uncreatable file): the counters start from the same base
+        jobs += F.jobs(exe, base + ["set=alpha", "maxlen=1", "preopen=1"] + F.cfg([0, 6], [1, 48, 0x20000], (0, 1), (0, 4)), 4)
+        jobs += F.jobs(exe, base + ["set=alpha", "maxlen=1", "preopen=3"] + F.cfg([0, 6], [1, 48, 0x20000], (0, 1), (0,)), 4)
         fixed = []
         for i, (e, a) in enumerate(jobs):
             sub = os.path.join(d, "j%d" % i)
